@@ -18,7 +18,13 @@ def typegen_cfg(max_depth, rich, tagdefs, extra_inv=True):
 
 def generate_cases(run, tier):
     """Binding A universe: BFS over TypeGen + simulation for deeper nestings."""
-    if tier == 'quick':
+    if tier == 'dev':
+        bfs = [(0, True, ['E'])]
+        sim = None
+    elif tier == 'dev1':
+        bfs = [(1, False, ['A', 'I'])]
+        sim = None
+    elif tier == 'quick':
         bfs = [(1, False, ['E', 'A'])]
         sim = ('num=150', 4, ['I'])
     else:
@@ -29,10 +35,11 @@ def generate_cases(run, tier):
         out, res = pl.tlc_generate(run, 'TypeGen', typegen_cfg(d, rich, tds), 'gen%d.ndjson' % n,
                                    workers=8, what='TypeGen BFS depth<=%d rich=%s tagdefs=%s' % (d, rich, tds))
         cases += pl.dedup_cases(out, 'g%d' % n)
-    out, res = pl.tlc_generate(run, 'TypeGen', typegen_cfg(sim[1], True, sim[2]), 'gensim.ndjson', workers=1,
-                               simulate=sim[0], depth=sim[1] + 1,
-                               what='TypeGen simulate %s depth %d' % (sim[0], sim[1]))
-    cases += pl.dedup_cases(out, 's')
+    if sim:
+        out, res = pl.tlc_generate(run, 'TypeGen', typegen_cfg(sim[1], True, sim[2]), 'gensim.ndjson', workers=1,
+                                   simulate=sim[0], depth=sim[1] + 1,
+                                   what='TypeGen simulate %s depth %d' % (sim[0], sim[1]))
+        cases += pl.dedup_cases(out, 's')
     # dedup across runs by content
     seen, uniq = set(), []
     for c in cases:
